@@ -15,6 +15,7 @@ RULE = ("plans (a) SOCKS credentials: auth.required x user list x external comma
         "wrong-then-right, same user other password, reuse just before/after expiry and after a verdict change, concurrent first use); (b) TLS client certificates: "
         "listener http/socks/quic x policy none/optional/required x presented none/valid/foreign-CA; (c) upstream verification: connector http/socks/quic x insecure x "
         "server certificate valid/foreign-CA/wrong-name; non-trivial = at least one attempt must be refused and one accepted; distinct = event-order hash")
+RULE_MORE = 'Later additions: boundary-shifted and placeholder credentials; helper killed by a signal; a lenient companion connector to the same upstream; part d: a host that never authenticated sends datagrams to the relay port of an authenticated UDP association (before/after the owner, with/without enforceUdpClient).'
 LEVEL_TEXT = ("seeded exploration of the real listeners, AuthData cache, rustls acceptors/connectors and quinn endpoints: the only observable that counts is whether the "
               "origin was ever contacted on behalf of a peer that the reference model (accepted set + expiring verdict cache keyed by the exact pair) rejects")
 LEVEL_NOTE = "the external program is a stub (verdict table); consulting it more often than necessary is not a violation; TLS1.3 client-side handshake results are never used"
